@@ -6,14 +6,14 @@ The closure `next_lgblock` (local to `qsieve()`, not reachable from a hook) is t
 the source text into Ymq/Gen/QsShift.lean.
 
 Conventions as in Ymq/Model/SiqsPoly.lean (`none` = panic site of the checked profile,
-`Dividers::mod_uint` is `%`, `arith::isqrt` is the floor square root `Nat.sqrt`).
+`Dividers::mod_uint` is `%`, `arith::isqrt` is the floor square root `SiqsPoly.isqrt`).
 The `u64` expressions `2 * p + r - base` etc. are computed in `Nat` with an explicit underflow test.
 No Mathlib import.
 -/
 import Ymq.Model.SiqsPoly
 
 namespace Ymq.QsRoots
-open Ymq.SiqsPoly (bitlen Prime)
+open Ymq.SiqsPoly (bitlen Prime isqrt)
 
 /-- the fields of `SieveQS` used by the root preparation -/
 structure QS where
@@ -24,11 +24,15 @@ structure QS where
   onlyOdds : Bool
 deriving Repr
 
+/-- `isqrt(n)`, made odd when `n ≡ 1 (mod 8)`: `nsqrt += Uint::from(1 - nsqrt % 2_u64)` -/
+def roundedSqrt (n : Nat) : Nat :=
+  let r := isqrt n
+  if n % 8 == 1 then r + (1 - r % 2) else r
+
 /-- `SieveQS::new(n, fbase, …)` -/
 def new (n : Nat) : Option QS :=
-  let r := Nat.sqrt n
   let odds := n % 8 == 1
-  let r := if odds then r + (1 - r % 2) else r
+  let r := roundedSqrt n
   let d : Int := ((r * r : Nat) : Int) - (n : Int)
   if ¬ (bitlen r < 255) then none                              -- assert!
   else if ¬ (bitlen d.natAbs < 255) then none                  -- assert!
